@@ -82,11 +82,14 @@ void case_impl(Ctx &c, bool ext) {
   s.nodeid = (uint8_t)(1 + c.t.below(127));
   w.mandatory();
   add_sync(w, 0x80, 0);
-  w.add_int(0x2100, 1, 1, false, false, true, true, 0, true, true);            // 8-bit, asynchronous trigger
-  w.add_int(0x2100, 2, 1, false, false, true, true, 0x22, true, false);        // 8-bit
-  w.add_int(0x2100, 3, 2, false, false, true, true, 0x1234, true, true);       // 16-bit, asynchronous trigger
-  w.add_int(0x2100, 4, 4, false, false, true, true, 0xA1B2C3D4, true, false);  // 32-bit
-  w.add_int(0x2100, 5, 4, false, false, true, true, 0x00ABCDEF, true, false);  // 32-bit, mapped with 24 bit
+  // mode random-retype: which objects are stored directly in the dictionary entry and which carry the asynchronous-trigger flag is generated
+  bool dir[5] = {false, false, false, false, false}, asy[5] = {true, false, true, false, false};
+  if (ext) { uint32_t f = c.t.below(1024); for (int o = 0; o < 5; o++) { dir[o] = (f >> o) & 1; if (o == 1 || o == 3 || o == 4) asy[o] = (f >> (5 + o)) & 1; } }
+  w.add_int(0x2100, 1, 1, dir[0], false, true, true, 0, true, asy[0]);            // 8-bit, asynchronous trigger
+  w.add_int(0x2100, 2, 1, dir[1], false, true, true, 0x22, true, asy[1]);         // 8-bit
+  w.add_int(0x2100, 3, 2, dir[2], false, true, true, 0x1234, true, asy[2]);       // 16-bit, asynchronous trigger
+  w.add_int(0x2100, 4, 4, dir[3], false, true, true, 0xA1B2C3D4, true, asy[3]);   // 32-bit
+  w.add_int(0x2100, 5, 4, dir[4], false, true, true, 0x00ABCDEF, true, asy[4]);   // 32-bit, mapped with 24 bit
   static const uint32_t MAPS[5] = {0x21000108, 0x21000208, 0x21000310, 0x21000420, 0x21000518};
   static const int BY[5] = {1, 1, 2, 4, 3};
   int ntp = 1 + (int)c.t.below(4);
@@ -154,10 +157,10 @@ void case_impl(Ctx &c, bool ext) {
       for (auto &b : cont) m.alt.push_back(b);
       x.compare("event-time write");
     } else if (op == 8) { // SDO write through which an asynchronous object changes
-      if (x.mode == 4) continue; int o = c.t.coin() ? 0 : 2; uint32_t v = c.t.u16(); if (o == 0) v &= 0xFF;
+      if (x.mode == 4) continue; int o = ext ? (int)c.t.below(5) : c.t.coin() ? 0 : 2; uint32_t v = ext && x.ob[o]->width == 4 ? c.t.u32() : c.t.u16(); if (x.ob[o]->width == 1) v &= 0xFF; if (o == 4) v &= 0xFFFFFF;
       std::vector<uint8_t> before = w.content(*x.ob[o]);
       cl.write(0x2100, (uint8_t)(o + 1), v, x.ob[o]->width); s.tx = cl.foreign; cl.foreign.clear();
-      if (before != w.content(*x.ob[o])) trig_obj_changed(o);
+      if (before != w.content(*x.ob[o]) && x.ob[o]->async) trig_obj_changed(o);
       VLOG(c, "SDO write obj%d := %X", o + 1, v); x.compare("value change through SDO");
     } else if (op == 9) { // RPDO that changes the asynchronous objects
       uint8_t a = c.t.byte(); uint16_t b = c.t.u16();
@@ -187,7 +190,9 @@ void case_impl(Ctx &c, bool ext) {
       s.tx = seen; retyped++;
       x.compare("transmission type rewritten");
     } else {              // change non-asynchronous values silently
-      for (int o : {1, 3, 4}) { uint32_t v = c.t.u32(); if (o == 4) v &= 0xFFFFFF; s.api_begin(); if (x.ob[o]->width == 1) CODictWrByte(&s.node->Dict, CO_DEV(0x2100, o + 1), (uint8_t)v); else CODictWrLong(&s.node->Dict, CO_DEV(0x2100, o + 1), v); s.api_end("CODictWr"); }
+      for (int o : {1, 3, 4}) { uint32_t v = c.t.u32(); if (o == 4) v &= 0xFFFFFF; std::vector<uint8_t> before = w.content(*x.ob[o]);
+        s.api_begin(); if (x.ob[o]->width == 1) CODictWrByte(&s.node->Dict, CO_DEV(0x2100, o + 1), (uint8_t)v); else CODictWrLong(&s.node->Dict, CO_DEV(0x2100, o + 1), v); s.api_end("CODictWr");
+        if (x.ob[o]->async && before != w.content(*x.ob[o])) trig_obj_changed(o); }
       x.compare("non-asynchronous value changes");
     }
   }
@@ -202,7 +207,7 @@ void ext_case(Ctx &c) { case_impl(c, true); }
 Registrar reg(Prop{
     "C12",
     "Cases: node id 1..127, 1..4 TPDOs with mappings of 1..5 distinct objects of 1/2/3(24 bit of a 32-bit object)/4 bytes totalling <= 8 bytes, type in {1..240, 254, 255}, inhibit 0..8 ms (non-zero only for 254/255), event time 0..12 ms with inhibit == event ties produced on purpose, valid or invalid COB-ID; "
-    "histories of up to 200 ops: ticks, explicit COTPdoTrigPdo/COTPdoTrigObj, value changes of asynchronous and other objects through API/SDO/RPDO, SYNCs, NMT changes, SDO writes to the event time and to the COB-ID valid bit while running; mode random-retype adds: invalidate the COB-ID, rewrite transmission type and inhibit time, re-validate (in PRE-OPERATIONAL or OPERATIONAL). "
+    "histories of up to 200 ops: ticks, explicit COTPdoTrigPdo/COTPdoTrigObj, value changes of asynchronous and other objects through API/SDO/RPDO, SYNCs, NMT changes, SDO writes to the event time and to the COB-ID valid bit while running; mode random-retype adds: invalidate the COB-ID, rewrite transmission type and inhibit time, re-validate (in PRE-OPERATIONAL or OPERATIONAL), and generates for each of the five objects whether it is stored directly in the entry and whether it carries the asynchronous-trigger flag. "
     "Oracle: reference schedule: after every op and every single tick the multiset of (identifier, DLC, data) TPDO frames equals the model's (data = little-endian values of the mapped objects at emission; immediate emission on trigger unless inhibited; exactly one deferred emission at inhibit end; event timer restarted by every emission; type n => every n-th SYNC; nothing outside OPERATIONAL or with an invalid COB-ID; ties resolved inhibit first). "
     "Non-trivial: >= 1 emission deferred by the inhibit time or produced by the event timer or by the SYNC count. Distinct = distinct decoded choice sequence.",
     {Mode{"random", one_case, false, 600000, 8000000, 0, 0, 300, 500},
